@@ -174,4 +174,225 @@ theorem applyNevt_val (hR : Refines e T L) {c : Counts} {st : TauSt} (hC : Count
 
 end tau
 
+/-! ### `Compute_nevt` ↔ `poissonCounts` + `countsOfDraws`
+
+The draws of `Compute_nevt` are `o.pois cnt0, o.pois (cnt0+1), …` in call order.  The keys of `countsOfDraws`
+(`(cell, none, r)` for reactions, `(cell, some s, slot)` for slots with a neighbour) are listed in the order of the loops;
+the invariant of the loops is that the keys passed so far (`P`) with the counts stored so far (`cs`) are a run of
+`poissonCounts` on the means of `P`, and that every entry passed so far holds the value the table `P.zip cs` gives it. -/
+
+abbrev TKey := Nat × Option Nat × Nat
+
+def tauKeysDiff (e : EngIn) (i s m : Nat) : List TKey :=
+  (List.range m).filterMap fun n => if (e.topo.nbr i n).isSome then some (i, some s, n) else none
+
+def tauKeysCell (e : EngIn) (i : Nat) : List TKey :=
+  ((List.range e.net.nReact).map fun r => (i, none, r)) ++
+    ((List.range e.net.nSpecies).flatMap fun s => tauKeysDiff e i s (e.topo.nSlots i))
+
+def tauKeys (e : EngIn) : List TKey := (List.range e.topo.nCells).flatMap (tauKeysCell e)
+
+def keyMean (e : EngIn) (dt : Rat) (X : State) : TKey → Rat
+  | (i, none, r) => reactionProp e X i r * dt
+  | (i, some s, n) => diffusionProp e X i s n * dt
+
+theorem tauLeapMeans_keys (e : EngIn) (dt : Rat) (X : State) : tauLeapMeans e dt X = (tauKeys e).map (keyMean e dt X) := by
+  unfold tauLeapMeans tauKeys tauKeysCell tauKeysDiff
+  rw [List.map_flatMap]
+  congr 1; funext i
+  rw [List.map_append, List.map_map, List.map_flatMap]
+  congr 1
+  congr 1; funext s
+  rw [List.map_filterMap]
+  congr 1; funext n
+  by_cases h : (e.topo.nbr i n).isSome = true
+  · rw [if_pos h, if_pos h]; rfl
+  · rw [if_neg h, if_neg h]; rfl
+
+def tlookup (tbl : List (TKey × Int)) (k : TKey) : Int := ((tbl.find? fun (k', _) => k' == k).map (·.2)).getD 0
+
+theorem countsOfDraws_keys (e : EngIn) (cs : List Int) (h : (tauKeys e).length = cs.length) :
+    countsOfDraws e cs = some ⟨fun i r => tlookup ((tauKeys e).zip cs) (i, none, r),
+      fun i s n => tlookup ((tauKeys e).zip cs) (i, some s, n)⟩ := by
+  show (if ((tauKeys e).length != cs.length) = true then none else some _) = _
+  rw [if_neg (by simp [h])]
+  rfl
+
+theorem tlookup_not_mem (P : List TKey) (cs : List Int) (k : TKey) (h : k ∉ P) : tlookup (P.zip cs) k = 0 := by
+  unfold tlookup
+  have : (P.zip cs).find? (fun (k', _) => k' == k) = none := by
+    rw [List.find?_eq_none]
+    intro x hx
+    obtain ⟨k', v⟩ := x
+    have := (List.of_mem_zip hx).1
+    intro hb
+    have : k' = k := by simpa using hb
+    subst this; exact h ‹_›
+  rw [this]; rfl
+
+theorem tlookup_snoc_ne (P : List TKey) (cs : List Int) (hlen : P.length = cs.length) (kc k : TKey) (v : Int) (hne : k ≠ kc) :
+    tlookup ((P ++ [kc]).zip (cs ++ [v])) k = tlookup (P.zip cs) k := by
+  unfold tlookup
+  rw [List.zip_append hlen, List.find?_append]
+  cases hf : (P.zip cs).find? (fun (k', _) => k' == k) with
+  | some a => rfl
+  | none =>
+    have : (kc == k) = false := by simpa using fun h => hne h.symm
+    simp [List.find?, this]
+
+theorem tlookup_snoc_new (P : List TKey) (cs : List Int) (hlen : P.length = cs.length) (kc : TKey) (v : Int) (hnm : kc ∉ P) :
+    tlookup ((P ++ [kc]).zip (cs ++ [v])) kc = v := by
+  have h0 : (P.zip cs).find? (fun (k', _) => k' == kc) = none := by
+    rw [List.find?_eq_none]
+    intro x hx
+    obtain ⟨k', w⟩ := x
+    have := (List.of_mem_zip hx).1
+    intro hb
+    have : k' = kc := by simpa using hb
+    subst this; exact hnm ‹_›
+  unfold tlookup
+  rw [List.zip_append hlen, List.find?_append, h0]
+  simp [List.find?]
+
+/-- the draws `o.pois cnt0 … o.pois (cnt0+k-1)` -/
+def drawsFrom (o : Oracles) (cnt0 k : Nat) : List Int := (List.range k).map fun j => o.pois (cnt0 + j)
+
+theorem drawsFrom_succ (o : Oracles) (cnt0 k : Nat) : drawsFrom o cnt0 (k + 1) = drawsFrom o cnt0 k ++ [o.pois (cnt0 + k)] := by
+  unfold drawsFrom; rw [List.range_succ, List.map_append]; rfl
+
+theorem poissonCounts_snoc : ∀ (ms : List Rat) (ds cs : List Int) (m : Rat), poissonCounts ms ds = some cs →
+    (m ≤ 0 → poissonCounts (ms ++ [m]) ds = some (cs ++ [0])) ∧
+    (¬ m ≤ 0 → ∀ d, poissonCounts (ms ++ [m]) (ds ++ [d]) = some (cs ++ [d])) := by
+  intro ms
+  induction ms with
+  | nil =>
+    intro ds cs m h
+    cases ds with
+    | nil =>
+      simp only [poissonCounts] at h; cases h
+      exact ⟨fun hm => by simp [poissonCounts, hm], fun hm d => by simp [poissonCounts, hm]⟩
+    | cons d ds => simp [poissonCounts] at h
+  | cons m0 ms ih =>
+    intro ds cs m h
+    simp only [poissonCounts] at h
+    by_cases hm0 : m0 ≤ 0
+    · rw [if_pos hm0] at h
+      cases hr : poissonCounts ms ds with
+      | none => rw [hr] at h; cases h
+      | some cs' =>
+        rw [hr] at h; cases h
+        obtain ⟨i1, i2⟩ := ih ds cs' m hr
+        refine ⟨fun hm => ?_, fun hm d => ?_⟩
+        · show poissonCounts (m0 :: (ms ++ [m])) ds = _
+          simp only [poissonCounts]; rw [if_pos hm0, i1 hm]; rfl
+        · show poissonCounts (m0 :: (ms ++ [m])) (ds ++ [d]) = _
+          simp only [poissonCounts]; rw [if_pos hm0, i2 hm d]; rfl
+    · rw [if_neg hm0] at h
+      cases ds with
+      | nil => cases h
+      | cons d0 ds' =>
+        simp only [] at h
+        cases hr : poissonCounts ms ds' with
+        | none => rw [hr] at h; cases h
+        | some cs' =>
+          rw [hr] at h; cases h
+          obtain ⟨i1, i2⟩ := ih ds' cs' m hr
+          refine ⟨fun hm => ?_, fun hm d => ?_⟩
+          · show poissonCounts (m0 :: (ms ++ [m])) (d0 :: ds') = _
+            simp only [poissonCounts]; rw [if_neg hm0, i1 hm]; rfl
+          · show poissonCounts (m0 :: (ms ++ [m])) (d0 :: (ds' ++ [d])) = _
+            simp only [poissonCounts]; rw [if_neg hm0, i2 hm d]; rfl
+
+/-- loop order on keys / cursor positions -/
+def KLt : TKey → TKey → Prop
+  | (i', p', m'), (i, p, m) => i' < i ∨ (i' = i ∧
+      match p', p with
+      | none, none => m' < m
+      | none, some _ => True
+      | some _, none => False
+      | some s', some s => s' < s ∨ (s' = s ∧ m' < m))
+
+/-- the key is an entry of the scratch vectors -/
+def VK (e : EngIn) (T : Tabs) : TKey → Prop
+  | (i, none, r) => i < T.n ∧ r < T.nr
+  | (i, some s, n) => i < T.n ∧ s < T.ns ∧ n < e.topo.nSlots i
+
+/-- the entry of key holds `v` -/
+def Stored (T : Tabs) (L : Layout) (st : TauSt) : TKey → Int → Prop
+  | (i, none, r), v => st.mnr.get (i * T.nr + r) = v
+  | (i, some s, n), v => ∀ a, L.slot i s n = .ok a → st.mnd.rd a = .ok v
+
+structure TauInv (e : EngIn) (T : Tabs) (L : Layout) (o : Oracles) (dt : Rat) (X : State) (cnt0 : Nat)
+    (cur : TKey) (P : List TKey) (st : TauSt) : Prop where
+  mnr : st.mnr.size = T.n * T.nr
+  mnd : SlotOK T L e.topo.nSlots st.mnd
+  ex : ∃ k cs, st.cnt = cnt0 + k ∧ P.length = cs.length ∧
+    poissonCounts (P.map (keyMean e dt X)) (drawsFrom o cnt0 k) = some cs ∧
+    ∀ key, VK e T key → KLt key cur → Stored T L st key (tlookup (P.zip cs) key)
+  mem : ∀ k' ∈ P, KLt k' cur
+
+section inv
+variable {e : EngIn} {T : Tabs} {L : Layout} {o : Oracles} {dt : Rat} {X : State} {cnt0 : Nat}
+
+theorem TauInv.shift {cur cur' : TKey} {P : List TKey} {st : TauSt} (h : TauInv e T L o dt X cnt0 cur P st)
+    (h1 : ∀ key, VK e T key → KLt key cur' → KLt key cur) (h2 : ∀ key, KLt key cur → KLt key cur') :
+    TauInv e T L o dt X cnt0 cur' P st := by
+  obtain ⟨k, cs, a, b, c, d⟩ := h.ex
+  exact ⟨h.mnr, h.mnd, ⟨k, cs, a, b, c, fun key hv hl => d key hv (h1 key hv hl)⟩, fun k' hk' => h2 k' (h.mem k' hk')⟩
+
+/-- a `Poisson(mean)` call for entry `kc`, its result stored in the entry -/
+theorem TauInv.draw {cur cur' : TKey} {P : List TKey} {st st' : TauSt} (h : TauInv e T L o dt X cnt0 cur P st)
+    (kc : TKey) (v : Int) (hsz : st'.mnr.size = T.n * T.nr) (hmnd : SlotOK T L e.topo.nSlots st'.mnd)
+    (hframe : ∀ key w, VK e T key → key ≠ kc → Stored T L st key w → Stored T L st' key w)
+    (hnew : Stored T L st' kc v)
+    (hcur : ∀ key, VK e T key → KLt key cur' → KLt key cur ∨ key = kc)
+    (hmono : ∀ key, KLt key cur → KLt key cur') (hkc : KLt kc cur') (hirr : ¬ KLt kc cur)
+    (hval : (keyMean e dt X kc ≤ 0 ∧ v = 0 ∧ st'.cnt = st.cnt) ∨ (0 < keyMean e dt X kc ∧ v = o.pois st.cnt ∧ st'.cnt = st.cnt + 1)) :
+    TauInv e T L o dt X cnt0 cur' (P ++ [kc]) st' := by
+  obtain ⟨k, cs, hcnt, hlen, hpc, hst⟩ := h.ex
+  have hnm : kc ∉ P := fun hm => hirr (h.mem kc hm)
+  have hS : ∀ key, VK e T key → KLt key cur' → Stored T L st' key (tlookup ((P ++ [kc]).zip (cs ++ [v])) key) := by
+    intro key hvk hlt
+    rcases hcur key hvk hlt with hold | hk
+    · have hne : key ≠ kc := fun hh => hirr (hh ▸ hold)
+      rw [tlookup_snoc_ne P cs hlen kc key v hne]
+      exact hframe key _ hvk hne (hst key hvk hold)
+    · subst hk
+      rw [tlookup_snoc_new P cs hlen key v hnm]
+      exact hnew
+  have hM : ∀ k' ∈ P ++ [kc], KLt k' cur' := by
+    intro k' hk'
+    rcases List.mem_append.mp hk' with h1 | h1
+    · exact hmono k' (h.mem k' h1)
+    · rw [List.mem_singleton.mp h1]; exact hkc
+  have hL : (P ++ [kc]).length = (cs ++ [v]).length := by simp [hlen]
+  obtain ⟨i1, i2⟩ := poissonCounts_snoc _ _ _ (keyMean e dt X kc) hpc
+  rcases hval with ⟨hm, hv, hc⟩ | ⟨hm, hv, hc⟩
+  · refine ⟨hsz, hmnd, ⟨k, cs ++ [v], by rw [hc, hcnt], hL, ?_, hS⟩, hM⟩
+    rw [List.map_append, List.map_singleton, hv]
+    exact i1 hm
+  · refine ⟨hsz, hmnd, ⟨k + 1, cs ++ [v], by rw [hc, hcnt]; rfl, hL, ?_, hS⟩, hM⟩
+    rw [List.map_append, List.map_singleton, hv, drawsFrom_succ, hcnt]
+    exact i2 (not_le.mpr hm) _
+
+/-- a slot without neighbour: no call, 0 stored, the key list does not grow -/
+theorem TauInv.wall {cur cur' : TKey} {P : List TKey} {st st' : TauSt} (h : TauInv e T L o dt X cnt0 cur P st)
+    (kc : TKey) (hsz : st'.mnr.size = T.n * T.nr) (hmnd : SlotOK T L e.topo.nSlots st'.mnd)
+    (hframe : ∀ key w, VK e T key → key ≠ kc → Stored T L st key w → Stored T L st' key w)
+    (hnew : Stored T L st' kc 0)
+    (hcur : ∀ key, VK e T key → KLt key cur' → KLt key cur ∨ key = kc)
+    (hmono : ∀ key, KLt key cur → KLt key cur') (hirr : ¬ KLt kc cur) (hcnt' : st'.cnt = st.cnt) :
+    TauInv e T L o dt X cnt0 cur' P st' := by
+  obtain ⟨k, cs, hcnt, hlen, hpc, hst⟩ := h.ex
+  have hnm : kc ∉ P := fun hm => hirr (h.mem kc hm)
+  refine ⟨hsz, hmnd, ⟨k, cs, by rw [hcnt', hcnt], hlen, hpc, fun key hvk hlt => ?_⟩, fun k' hk' => hmono k' (h.mem k' hk')⟩
+  rcases hcur key hvk hlt with hold | hk
+  · have hne : key ≠ kc := fun hh => hirr (hh ▸ hold)
+    exact hframe key _ hvk hne (hst key hvk hold)
+  · subst hk
+    rw [tlookup_not_mem P cs key hnm]
+    exact hnew
+
+end inv
+
 end Strengths
